@@ -958,3 +958,687 @@ Proof.
   - right. rewrite firstn_all2 in Hs by lia. rewrite (xyz_atom_split_eq l' last Hs), Ha in Hcut. now rewrite Hcut, Hfull.
   - left. rewrite xyz_atom_few in Hcut; [exact Hcut|]. rewrite Hs, firstn_length. lia.
 Qed.
+
+(* ================================================================= mol2: one line deleted / duplicated *)
+
+Definition m2fails (st : m2state) (ls : list str) : Prop := exists e, m2finish true (m2run true st ls) = Err e.
+Lemma m2run_fail e ls : m2run true (MFail e) ls = MFail e.
+Proof. induction ls as [|l ls IH]; [reflexivity|exact IH]. Qed.
+Lemma m2fails_fail e ls : m2fails (MFail e) ls.
+Proof. exists e. now rewrite m2run_fail. Qed.
+Lemma m2fails_step st l ls : m2fails (m2step true st l) ls -> m2fails st (l :: ls).
+Proof. intros H. exact H. Qed.
+Lemma m2fails_app st a b : m2fails (m2run true st a) b -> m2fails st (a ++ b).
+Proof. unfold m2fails. now rewrite m2run_app. Qed.
+
+(* side conditions on the lines of a block: what makes a shifted line unmistakable *)
+Definition counts_bad (s : str) : Prop := forall n c, exists e, m2header n s c = Err e.
+Definition other_line (l : str) : Prop :=
+  exists c r, strip l = c :: r /\ ascii_eqb c "#" = false /\ tripos_name (strip l) = None.
+Definition few_tokens (k : nat) (l : str) : Prop := (List.length (split (strip l)) < k)%nat.
+Definition never_bond (l : str) : Prop :=
+  few_tokens 4 l \/ forall btype n, exists e, m2_bond_conv btype n (mk_m2bond (split (strip l))) = Err e.
+
+Lemma step_other oh oa ob out l : other_line l -> m2step true (MRun MMain (V oh oa ob out)) l = MFail ESyntax.
+Proof. intros (c & r & E & Hc & Ht). unfold m2step, m2main. rewrite E in *. rewrite Hc, Ht. reflexivity. Qed.
+Lemma step_atom_few oh oa ob out todo l : few_tokens 5 l -> m2step true (MRun (MAtoms todo) (V oh oa ob out)) l = MFail EType.
+Proof. unfold few_tokens. intros H. unfold m2step. destruct (Nat.ltb_spec (List.length (split (strip l))) 5); [reflexivity|lia]. Qed.
+Lemma step_bond_few oh oa ob out todo l : few_tokens 4 l -> m2step true (MRun (MBonds todo) (V oh oa ob out)) l = MFail EType.
+Proof. unfold few_tokens. intros H. unfold m2step. destruct (Nat.ltb_spec (List.length (split (strip l))) 4); [reflexivity|lia]. Qed.
+
+Lemma step_hdr_bad_counts v name counts mtype ctype x : counts_bad (strip counts) ->
+  exists e, m2step true (MRun (MHdr [strip ctype; strip mtype; strip counts; strip name]) v) x = MFail e.
+Proof. intros H. destruct (H (strip name) (strip ctype)) as [e E]. exists e. unfold m2step. now rewrite E. Qed.
+
+(* five header lines whose last one is a TRIPOS record: it is put back and dispatched in main mode *)
+Lemma step_hdr_putback oh oa ob out name counts mtype ctype x h nm :
+  m2header (strip name) (strip counts) (strip ctype) = Ok h -> tripos_name (strip x) = Some nm ->
+  m2step true (MRun (MHdr [strip ctype; strip mtype; strip counts; strip name]) (V oh oa ob out)) x
+  = m2main true (V (Some h) oa ob out) (strip x).
+Proof. intros Hh Hx. unfold m2step. rewrite Hh, Hx. reflexivity. Qed.
+
+(* m2header only looks at the counts line for success; the header differs in name / charge type only *)
+Definition hsim (h' h : m2hdr) : Prop := mh_natoms h' = mh_natoms h /\ mh_nbonds h' = mh_nbonds h.
+Lemma m2header_sim n c t h n' t' : m2header n c t = Ok h -> exists h', m2header n' c t' = Ok h' /\ hsim h' h.
+Proof.
+  unfold m2header. destruct (map_opt parse_int (split c)) as [[|na [|nb [|ns r]]]|]; try discriminate;
+    intros H; injection H as <-; (eexists; split; [reflexivity|split; reflexivity]).
+Qed.
+
+Lemma line_class l : tripos_name (strip l) = None -> ignorable l \/ other_line l.
+Proof.
+  intros H. unfold ignorable, other_line. destruct (strip l) as [|c r] eqn:E; [left; left; reflexivity|].
+  destruct (ascii_eqb c "#") eqn:Ec.
+  - left. right. apply ascii_eqb_eq in Ec. subst c. now exists r.
+  - right. exists c, r. auto.
+Qed.
+
+Lemma pvars_V out p : exists oh oa ob, pvars out p = V oh oa ob out.
+Proof. destruct p as [[[h a] b]|]; simpl; eauto. Qed.
+
+(* the ATOM and BOND sections of a block, from "header just read" *)
+Section Body.
+Variables (h : m2hdr) (atoms : list m2atom) (bonds : list m2bond) (out' : list m2block).
+Variables (la lb : str) (als bls : list str).
+Hypothesis Hna : mh_natoms h = Z.of_nat (List.length atoms).
+Hypothesis Hnb : mh_nbonds h = Some (Z.of_nat (List.length bonds)).
+Hypothesis Hla : is_sec la SAtom.
+Hypothesis HFa : Forall2 atom_line_of als atoms.
+Hypothesis Hlb : is_sec lb SBond.
+Hypothesis HFb : Forall2 bond_line_of bls bonds.
+
+Lemma run_atoms_sec ob rest :
+  m2run true (MRun MMain (V (Some h) (Some []) ob out')) (la :: als ++ rest)
+  = m2run true (MRun MMain (V (Some h) (Some (rev atoms)) ob out')) rest.
+Proof using Hna Hla HFa.
+  clear - Hna Hla HFa. rewrite m2run_cons, (step_atom_sec h _ _ la Hla). pose proof (Forall2_length HFa) as Hlen.
+  rewrite <- m2run_app. f_equal.
+  destruct (Z.leb_spec (mh_natoms h) 0) as [Hle|Hgt].
+  - assert (E : atoms = []) by (destruct atoms; [reflexivity|simpl in Hna; lia]). rewrite E in *. inversion HFa; subst. reflexivity.
+  - replace (Z.to_N (mh_natoms h)) with (N.of_nat (List.length als)) by lia.
+    rewrite (atoms_exact _ _ _ als atoms HFa) by (destruct als; [simpl in *; lia|discriminate]). now rewrite app_nil_r.
+Qed.
+Lemma run_bonds_sec oa rest :
+  m2run true (MRun MMain (V (Some h) oa (Some []) out')) (lb :: bls ++ rest)
+  = m2run true (MRun MMain (V (Some h) oa (Some (rev bonds)) out')) rest.
+Proof using Hnb Hlb HFb.
+  clear - Hnb Hlb HFb. rewrite m2run_cons, (step_bond_sec h _ _ lb _ Hlb Hnb). pose proof (Forall2_length HFb) as Hlen.
+  rewrite <- m2run_app. f_equal.
+  destruct (Z.leb_spec (Z.of_nat (List.length bonds)) 0) as [Hle|Hgt].
+  - assert (E : bonds = []) by (destruct bonds; [reflexivity|simpl in Hle; lia]). rewrite E in *. inversion HFb; subst. reflexivity.
+  - replace (Z.to_N (Z.of_nat (List.length bonds))) with (N.of_nat (List.length bls)) by lia.
+    rewrite (bonds_exact _ _ _ bls bonds HFb) by (destruct bls; [simpl in *; lia|discriminate]). now rewrite app_nil_r.
+Qed.
+Lemma run_body rest :
+  m2run true (MRun MMain (V (Some h) (Some []) (Some []) out')) ((la :: als ++ lb :: bls) ++ rest)
+  = m2run true (MRun MMain (pvars out' (Some (h, atoms, bonds)))) rest.
+Proof.
+  change ((la :: als ++ lb :: bls) ++ rest) with (la :: (als ++ lb :: bls) ++ rest). rewrite <- app_assoc.
+  rewrite run_atoms_sec. change ((lb :: bls) ++ rest) with (lb :: bls ++ rest). rewrite run_bonds_sec. reflexivity.
+Qed.
+End Body.
+
+Inductive m2wfs : m2block -> list str -> Prop :=
+| m2wfs_intro ign lm name counts mtype ctype status la als lb bls h atoms bonds :
+    Forall ignorable ign -> is_sec lm SMolecule ->
+    m2header (strip name) (strip counts) (strip ctype) = Ok h -> plain_status status ->
+    is_sec la SAtom -> mh_natoms h = Z.of_nat (List.length atoms) -> Forall2 atom_line_of als atoms ->
+    is_sec lb SBond -> mh_nbonds h = Some (Z.of_nat (List.length bonds)) -> Forall2 bond_line_of bls bonds ->
+    (* what makes a shifted line unmistakable *)
+    Forall never_bond ign -> few_tokens 4 lm ->
+    tripos_name (strip name) = None -> counts_bad (strip name) -> other_line counts -> counts_bad (strip mtype) ->
+    plain_status ctype -> few_tokens 5 la -> few_tokens 4 lb ->
+    Forall other_line als -> Forall other_line bls ->
+    m2wfs (mk_m2block h atoms bonds)
+          (ign ++ lm :: name :: counts :: mtype :: ctype :: status :: la :: als ++ lb :: bls).
+
+Lemma m2wfs_wf b l : m2wfs b l -> m2wf b l.
+Proof. intros H. destruct H. now constructor. Qed.
+
+Inductive wtail : list str -> Prop :=
+| wt_nil : wtail []
+| wt_ign x post : ignorable x -> never_bond x -> wtail (x :: post)
+| wt_lm x post : few_tokens 4 x -> wtail (x :: post).
+
+Definition bad_bond (bd : m2bond) : Prop := forall btype n, exists e, m2_bond_conv btype n bd = Err e.
+
+Inductive outcome (out' : list m2block) (h : m2hdr) (atoms : list m2atom) (bonds : list m2bond)
+                  (S0 : m2state) (dl post : list str) : Prop :=
+| oc_fail : m2fails S0 (dl ++ post) -> outcome out' h atoms bonds S0 dl post
+| oc_same h' : hsim h' h -> m2run true S0 dl = MRun MMain (pvars out' (Some (h', atoms, bonds))) ->
+               outcome out' h atoms bonds S0 dl post
+| oc_bogus x post' bonds' bd : post = x :: post' -> ignorable x ->
+    List.length bonds' = List.length bonds -> In bd bonds' -> bad_bond bd ->
+    m2run true S0 (dl ++ [x]) = MRun MMain (pvars out' (Some (h, atoms, bonds'))) ->
+    outcome out' h atoms bonds S0 dl post.
+
+Lemma hsim_refl h : hsim h h.
+Proof. split; reflexivity. Qed.
+
+Lemma Forall2_del_nth {A B} (R : A -> B -> Prop) i : forall l1 l2, Forall2 R l1 l2 -> Forall2 R (del_nth i l1) (del_nth i l2).
+Proof. induction i as [|i IH]; intros l1 l2 H; destruct H; simpl; try constructor; auto. Qed.
+Lemma Forall2_dup_nth {A B} (R : A -> B -> Prop) i : forall l1 l2, Forall2 R l1 l2 -> Forall2 R (dup_nth i l1) (dup_nth i l2).
+Proof. induction i as [|i IH]; intros l1 l2 H; destruct H; simpl; repeat (constructor; auto). Qed.
+
+(* header read from the lines n c x t followed directly by the ATOM record (one of mol_type / charge type / status missing) *)
+Lemma run_hdr4_la oh out' n c x t h' atoms bonds la als lb bls :
+  m2header (strip n) (strip c) (strip t) = Ok h' ->
+  mh_natoms h' = Z.of_nat (List.length atoms) -> mh_nbonds h' = Some (Z.of_nat (List.length bonds)) ->
+  is_sec la SAtom -> Forall2 atom_line_of als atoms -> is_sec lb SBond -> Forall2 bond_line_of bls bonds ->
+  m2run true (MRun (MHdr []) (mk_m2vars oh (Some []) (Some []) false out')) (n :: c :: x :: t :: la :: als ++ lb :: bls)
+  = MRun MMain (pvars out' (Some (h', atoms, bonds))).
+Proof.
+  intros Hh Hna Hnb Hla HFa Hlb HFb. rewrite !m2run_cons. rewrite !step_hdr_push by (simpl; lia).
+  destruct Hla as (nm & r & E1 & E2 & E3).
+  rewrite (step_hdr_putback oh (Some []) (Some []) out' n c x t la h' nm Hh E2).
+  change (m2main true (V (Some h') (Some []) (Some []) out') (strip la)) with (m2step true (MRun MMain (V (Some h') (Some []) (Some []) out')) la).
+  rewrite <- m2run_cons. rewrite <- (app_nil_r (la :: als ++ lb :: bls)).
+  rewrite (run_body h' atoms bonds out' la lb als bls Hna Hnb (ex_intro _ nm (ex_intro _ r (conj E1 (conj E2 E3)))) HFa Hlb HFb). reflexivity.
+Qed.
+
+(* header of five lines with a plain fifth line, then one more plain line read in main mode, then the body *)
+Lemma hdr5_extra oh out' n c x t s extra h' atoms bonds la als lb bls post :
+  m2header (strip n) (strip c) (strip t) = Ok h' -> plain_status s -> plain_status extra ->
+  mh_natoms h' = Z.of_nat (List.length atoms) -> mh_nbonds h' = Some (Z.of_nat (List.length bonds)) ->
+  is_sec la SAtom -> Forall2 atom_line_of als atoms -> is_sec lb SBond -> Forall2 bond_line_of bls bonds ->
+  let S := MRun (MHdr []) (mk_m2vars oh (Some []) (Some []) false out') in
+  let dl := n :: c :: x :: t :: s :: extra :: la :: als ++ lb :: bls in
+  m2fails S (dl ++ post) \/ m2run true S dl = MRun MMain (pvars out' (Some (h', atoms, bonds))).
+Proof.
+  intros Hh Hs He Hna Hnb Hla HFa Hlb HFb S dl. subst S dl.
+  destruct (line_class extra (proj1 He)) as [Hi|Ho].
+  - right. do 6 rewrite m2run_cons. rewrite !step_hdr_push by (simpl; lia).
+    rewrite (step_hdr_status _ _ _ _ _ _ _ _ _ h' Hh Hs). rewrite step_ign by exact Hi.
+    rewrite <- (app_nil_r (la :: als ++ lb :: bls)).
+    rewrite (run_body h' atoms bonds out' la lb als bls Hna Hnb Hla HFa Hlb HFb). reflexivity.
+  - left. simpl app. do 5 apply m2fails_step. rewrite !step_hdr_push by (simpl; lia).
+    rewrite (step_hdr_status _ _ _ _ _ _ _ _ _ h' Hh Hs). apply m2fails_step. rewrite step_other by exact Ho.
+    apply m2fails_fail.
+Qed.
+
+Lemma m2fails_via st st' a rest : m2run true st a = st' -> m2fails st' rest -> m2fails st (a ++ rest).
+Proof. intros E H. apply m2fails_app. now rewrite E. Qed.
+Lemma few45 l : few_tokens 4 l -> few_tokens 5 l.
+Proof. unfold few_tokens. lia. Qed.
+Lemma finish_hdr got v : m2finish true (MRun (MHdr got) v) = Err EEof.
+Proof. reflexivity. Qed.
+
+Lemma list_case {A} (l : list A) : l = [] \/ exists x r, l = x :: r.
+Proof. destruct l; [now left|right; eauto]. Qed.
+
+Section BlockDamage.
+Variables (ign : list str) (lm name counts mtype ctype status la lb : str) (als bls : list str).
+Variables (h : m2hdr) (atoms : list m2atom) (bonds : list m2bond).
+Hypothesis Hign : Forall ignorable ign.
+Hypothesis Hlm : is_sec lm SMolecule.
+Hypothesis Hh : m2header (strip name) (strip counts) (strip ctype) = Ok h.
+Hypothesis Hst : plain_status status.
+Hypothesis Hla : is_sec la SAtom.
+Hypothesis Hna : mh_natoms h = Z.of_nat (List.length atoms).
+Hypothesis HFa : Forall2 atom_line_of als atoms.
+Hypothesis Hlb : is_sec lb SBond.
+Hypothesis Hnb : mh_nbonds h = Some (Z.of_nat (List.length bonds)).
+Hypothesis HFb : Forall2 bond_line_of bls bonds.
+Hypothesis Hign_nb : Forall never_bond ign.
+Hypothesis Hlm_few : few_tokens 4 lm.
+Hypothesis Hname_t : tripos_name (strip name) = None.
+Hypothesis Hname_bad : counts_bad (strip name).
+Hypothesis Hcounts_o : other_line counts.
+Hypothesis Hmtype_bad : counts_bad (strip mtype).
+Hypothesis Hctype_p : plain_status ctype.
+Hypothesis Hla_few : few_tokens 5 la.
+Hypothesis Hlb_few : few_tokens 4 lb.
+Hypothesis Hals_o : Forall other_line als.
+Hypothesis Hbls_o : Forall other_line bls.
+Variables (out : list m2block) (p : pend).
+Hypothesis Hp : pok p.
+
+Let out' := pout out p.
+Let S0 := MRun MMain (pvars out p).
+Let SH := MRun (MHdr []) (mk_m2vars (phdr p) (Some []) (Some []) false out').
+Let SB := MRun MMain (V (Some h) (Some []) (Some []) out').
+Let body := la :: als ++ lb :: bls.
+
+Lemma run_lm rest : m2run true S0 (lm :: rest) = m2run true SH rest.
+Proof using Hlm Hp. unfold S0, SH, out'. rewrite m2run_cons, step_molecule by assumption. reflexivity. Qed.
+Lemma run_hdr5 rest : m2run true SH (name :: counts :: mtype :: ctype :: status :: rest) = m2run true SB rest.
+Proof using Hh Hst.
+  clear - Hh Hst. unfold SH, SB. do 5 rewrite m2run_cons. rewrite !step_hdr_push by (simpl; lia).
+  rewrite (step_hdr_status _ _ _ _ _ _ _ _ _ h Hh Hst). reflexivity.
+Qed.
+Lemma hdr_bad n c x t y rest : counts_bad (strip c) -> m2fails SH (n :: c :: x :: t :: y :: rest).
+Proof using.
+  clear. intros Hbad. unfold SH. do 4 apply m2fails_step. rewrite !step_hdr_push by (simpl; lia). apply m2fails_step.
+  destruct (step_hdr_bad_counts (mk_m2vars (phdr p) (Some []) (Some []) false out') n c x t y Hbad) as [e E].
+  rewrite E. apply m2fails_fail.
+Qed.
+
+Lemma Hna' h' : hsim h' h -> mh_natoms h' = Z.of_nat (List.length atoms).
+Proof using Hna. intros [H1 _]. now rewrite H1. Qed.
+Lemma Hnb' h' : hsim h' h -> mh_nbonds h' = Some (Z.of_nat (List.length bonds)).
+Proof using Hnb. intros [_ H2]. now rewrite H2. Qed.
+
+(* damage after the run of leading blank/comment lines *)
+Lemma outcome_ign X post : outcome out' h atoms bonds S0 X post -> outcome out' h atoms bonds S0 (ign ++ X) post.
+Proof using Hign.
+  assert (R : m2run true S0 ign = S0) by (apply run_ign; exact Hign).
+  intros [F|h' Hs E|x post' bonds' bd E1 E2 E3 E4 E5 E6].
+  - apply oc_fail. rewrite <- app_assoc. now apply (m2fails_via S0 S0).
+  - apply (oc_same _ _ _ _ _ _ _ h' Hs). now rewrite <- m2run_app, R.
+  - apply (oc_bogus _ _ _ _ _ _ _ x post' bonds' bd); auto. now rewrite <- app_assoc, <- m2run_app, R.
+Qed.
+
+Lemma deleted_inner post k : wtail post -> (k < 7 + List.length als + 1 + List.length bls)%nat ->
+  outcome out' h atoms bonds S0 (del_nth k (lm :: name :: counts :: mtype :: ctype :: status :: body)) post.
+Proof.
+  intros Ht Hk. pose proof (Forall2_length HFa) as Hlena. pose proof (Forall2_length HFb) as Hlenb.
+  unfold body. destruct k as [|[|[|[|[|[|[|j]]]]]]]; cbn [del_nth].
+  - (* MOLECULE record gone: the name line is read in main mode *)
+    apply oc_fail. unfold S0. destruct (pvars_V out p) as (oh & oa & ob & EV). rewrite EV. simpl app.
+    destruct (line_class name Hname_t) as [Hi|Ho].
+    + apply m2fails_step. rewrite step_ign by exact Hi. apply m2fails_step. rewrite step_other by exact Hcounts_o. apply m2fails_fail.
+    + apply m2fails_step. rewrite step_other by exact Ho. apply m2fails_fail.
+  - (* name gone: mol_type is read as the counts *)
+    apply oc_fail. simpl app. unfold m2fails. rewrite run_lm. now apply hdr_bad.
+  - apply oc_fail. simpl app. unfold m2fails. rewrite run_lm. now apply hdr_bad.
+  - (* mol_type gone: the status line becomes the charge type, the ATOM record is put back *)
+    destruct (m2header_sim _ _ _ _ (strip name) (strip status) Hh) as [h' [Hh' Hs]].
+    apply (oc_same _ _ _ _ _ _ _ h' Hs). rewrite run_lm. unfold SH.
+    apply run_hdr4_la; auto using Hna', Hnb'.
+  - destruct (m2header_sim _ _ _ _ (strip name) (strip status) Hh) as [h' [Hh' Hs]].
+    apply (oc_same _ _ _ _ _ _ _ h' Hs). rewrite run_lm. unfold SH.
+    apply run_hdr4_la; auto using Hna', Hnb'.
+  - apply (oc_same _ _ _ _ _ _ _ h (hsim_refl h)). rewrite run_lm. unfold SH. apply run_hdr4_la; auto.
+  - (* ATOM record gone *)
+    destruct (list_case als) as [Eals|(a1 & als' & Eals)].
+    + assert (Ea : atoms = []) by (rewrite Eals in HFa; inversion HFa; reflexivity).
+      apply (oc_same _ _ _ _ _ _ _ h (hsim_refl h)). rewrite run_lm, run_hdr5. unfold SB. rewrite Eals, Ea. simpl app.
+      rewrite <- (app_nil_r bls). rewrite (run_bonds_sec h bonds out' lb bls Hnb Hlb HFb). reflexivity.
+    + apply oc_fail. assert (Ho : other_line a1) by (rewrite Eals in Hals_o; now inversion Hals_o).
+      rewrite Eals. simpl app. unfold m2fails. rewrite run_lm, run_hdr5. unfold SB.
+      apply m2fails_step. rewrite step_other by assumption. apply m2fails_fail.
+  - (* a line of the ATOM / BOND part gone *)
+    assert (Hpre : forall rest, m2run true S0 (lm :: name :: counts :: mtype :: ctype :: status :: la :: rest)
+                   = m2run true (if (mh_natoms h <=? 0)%Z then SB else MRun (MAtoms (Z.to_N (mh_natoms h))) (V (Some h) (Some []) (Some []) out')) rest).
+    { intros rest. rewrite run_lm, run_hdr5. unfold SB. rewrite m2run_cons, (step_atom_sec h _ _ la Hla).
+      destruct (mh_natoms h <=? 0)%Z; reflexivity. }
+    destruct (lt_dec j (List.length als)) as [Hja|Hja].
+    + (* an atom line gone: the BOND record is read as an atom *)
+      apply oc_fail. rewrite del_nth_app_l by exact Hja. unfold m2fails.
+      change ((lm :: name :: counts :: mtype :: ctype :: status :: la :: del_nth j als ++ lb :: bls) ++ post)
+        with (lm :: name :: counts :: mtype :: ctype :: status :: la :: (del_nth j als ++ lb :: bls) ++ post).
+      rewrite Hpre. destruct (Z.leb_spec (mh_natoms h) 0) as [Hle|Hgt]; [lia|].
+      rewrite <- app_assoc. apply m2fails_app.
+      pose proof (del_nth_length als j Hja) as Hdl.
+      rewrite (atoms_short _ _ _ (del_nth j als) (del_nth j atoms)) by (try (now apply Forall2_del_nth); lia).
+      simpl app. apply m2fails_step. rewrite step_atom_few by (now apply few45). apply m2fails_fail.
+    + remember (j - List.length als)%nat as j1 eqn:Ej1. replace j with (List.length als + j1)%nat by lia.
+      rewrite del_nth_app_r.
+      assert (Hatoms : forall rest, m2run true S0 (lm :: name :: counts :: mtype :: ctype :: status :: la :: als ++ rest)
+                       = m2run true (MRun MMain (V (Some h) (Some (rev atoms)) (Some []) out')) rest).
+      { intros rest. rewrite run_lm, run_hdr5. unfold SB. apply (run_atoms_sec h atoms out' la als Hna Hla HFa). }
+      destruct j1 as [|j2]; cbn [del_nth].
+      * (* BOND record gone *)
+        destruct (list_case bls) as [Ebls|(b1 & bls' & Ebls)].
+        -- assert (Eb : bonds = []) by (rewrite Ebls in HFb; inversion HFb; reflexivity).
+           apply (oc_same _ _ _ _ _ _ _ h (hsim_refl h)). rewrite Ebls, Hatoms, Eb. reflexivity.
+        -- apply oc_fail. assert (Ho : other_line b1) by (rewrite Ebls in Hbls_o; now inversion Hbls_o).
+           rewrite Ebls. unfold m2fails.
+           change ((lm :: name :: counts :: mtype :: ctype :: status :: la :: als ++ b1 :: bls') ++ post)
+             with (lm :: name :: counts :: mtype :: ctype :: status :: la :: (als ++ b1 :: bls') ++ post).
+           rewrite <- app_assoc, Hatoms. simpl app. apply m2fails_step. rewrite step_other by assumption. apply m2fails_fail.
+      * (* a bond line gone: the next line of the text is read as a bond record *)
+        assert (Hj2 : (j2 < List.length bls)%nat) by lia.
+        assert (Hm : (0 < Z.of_nat (List.length bonds))%Z) by lia.
+        pose proof (del_nth_length bls j2 Hj2) as Hdl.
+        assert (Hrun : forall rest, m2run true S0 ((lm :: name :: counts :: mtype :: ctype :: status :: la :: als ++ lb :: del_nth j2 bls) ++ rest)
+                       = m2run true (MRun (MBonds 1) (V (Some h) (Some (rev atoms)) (Some (rev (del_nth j2 bonds))) out')) rest).
+        { intros rest.
+          change ((lm :: name :: counts :: mtype :: ctype :: status :: la :: als ++ lb :: del_nth j2 bls) ++ rest)
+            with (lm :: name :: counts :: mtype :: ctype :: status :: la :: (als ++ lb :: del_nth j2 bls) ++ rest).
+          rewrite <- app_assoc, Hatoms. simpl app. rewrite m2run_cons, (step_bond_sec h _ _ lb _ Hlb Hnb).
+          destruct (Z.leb_spec (Z.of_nat (List.length bonds)) 0) as [Hle|Hgt]; [lia|].
+          rewrite <- m2run_app. rewrite (bonds_short _ _ _ (del_nth j2 bls) (del_nth j2 bonds)) by (try (now apply Forall2_del_nth); lia).
+          replace (Z.to_N (Z.of_nat (List.length bonds)) - N.of_nat (List.length (del_nth j2 bls)))%N with 1%N by lia.
+          rewrite app_nil_r. reflexivity. }
+        destruct Ht as [|x post' Hxi Hxn|x post' Hxf].
+        -- apply oc_fail. unfold m2fails. rewrite Hrun. eexists. reflexivity.
+        -- destruct (lt_dec (List.length (split (strip x))) 4) as [Hfew|Hnf].
+           ++ apply oc_fail. unfold m2fails. rewrite Hrun. apply m2fails_step. rewrite step_bond_few by exact Hfew. apply m2fails_fail.
+           ++ destruct Hxn as [Hfew|Hbad]; [unfold few_tokens in Hfew; lia|].
+              apply (oc_bogus _ _ _ _ _ _ _ x post' (del_nth j2 bonds ++ [mk_m2bond (split (strip x))]) (mk_m2bond (split (strip x)))); auto.
+              ** rewrite app_length. simpl. pose proof (del_nth_length bonds j2 ltac:(lia)). lia.
+              ** apply in_or_app. right. now left.
+              ** rewrite Hrun. rewrite m2run_cons, (step_bond _ _ _ _ _ x (mk_m2bond (split (strip x)))) by (split; [reflexivity|lia]).
+                 simpl. rewrite rev_app_distr. reflexivity.
+        -- apply oc_fail. unfold m2fails. rewrite Hrun. apply m2fails_step. rewrite step_bond_few by exact Hxf. apply m2fails_fail.
+Qed.
+Lemma dup_hdr_case post n c x t s extra h' : m2header (strip n) (strip c) (strip t) = Ok h' -> hsim h' h ->
+  plain_status s -> plain_status extra ->
+  outcome out' h atoms bonds S0 (lm :: n :: c :: x :: t :: s :: extra :: body) post.
+Proof using Hlm Hp Hna Hnb Hla HFa Hlb HFb.
+  intros Hh' Hs Hps Hpe.
+  destruct (hdr5_extra (phdr p) out' n c x t s extra h' atoms bonds la als lb bls post Hh' Hps Hpe
+              (Hna' h' Hs) (Hnb' h' Hs) Hla HFa Hlb HFb) as [F|E].
+  - apply oc_fail. simpl app. unfold m2fails. rewrite run_lm. exact F.
+  - apply (oc_same _ _ _ _ _ _ _ h' Hs). rewrite run_lm. exact E.
+Qed.
+
+Lemma over_atoms oh ob out0 L atoms' rest : Forall2 atom_line_of L atoms' -> Forall other_line L -> (2 <= List.length L)%nat ->
+  m2fails (MRun (MAtoms (N.of_nat (List.length L - 1))) (V oh (Some []) ob out0)) (L ++ rest).
+Proof using.
+  clear. intros HF Ho Hlen. assert (Hne : L <> []) by (destruct L; [simpl in Hlen; lia|discriminate]).
+  destruct (exists_last Hne) as [front [x ->]]. apply Forall2_app_inv_l in HF. destruct HF as (a1 & a2 & HF1 & _ & _).
+  rewrite app_length in *. simpl in *. replace (List.length front + 1 - 1)%nat with (List.length front) by lia.
+  rewrite <- app_assoc. apply m2fails_app. rewrite (atoms_exact _ _ _ front a1 HF1) by (destruct front; [simpl in Hlen; lia|discriminate]).
+  simpl app. apply m2fails_step. rewrite step_other; [apply m2fails_fail|].
+  rewrite Forall_forall in Ho. apply Ho. apply in_or_app. right. now left.
+Qed.
+Lemma over_bonds oh oa out0 L bonds' rest : Forall2 bond_line_of L bonds' -> Forall other_line L -> (2 <= List.length L)%nat ->
+  m2fails (MRun (MBonds (N.of_nat (List.length L - 1))) (V oh oa (Some []) out0)) (L ++ rest).
+Proof using.
+  clear. intros HF Ho Hlen. assert (Hne : L <> []) by (destruct L; [simpl in Hlen; lia|discriminate]).
+  destruct (exists_last Hne) as [front [x ->]]. apply Forall2_app_inv_l in HF. destruct HF as (a1 & a2 & HF1 & _ & _).
+  rewrite app_length in *. simpl in *. replace (List.length front + 1 - 1)%nat with (List.length front) by lia.
+  rewrite <- app_assoc. apply m2fails_app. rewrite (bonds_exact _ _ _ front a1 HF1) by (destruct front; [simpl in Hlen; lia|discriminate]).
+  simpl app. apply m2fails_step. rewrite step_other; [apply m2fails_fail|].
+  rewrite Forall_forall in Ho. apply Ho. apply in_or_app. right. now left.
+Qed.
+
+Lemma duplicated_inner post k : (k < 7 + List.length als + 1 + List.length bls)%nat ->
+  outcome out' h atoms bonds S0 (dup_nth k (lm :: name :: counts :: mtype :: ctype :: status :: body)) post.
+Proof.
+  intros Hk. pose proof (Forall2_length HFa) as Hlena. pose proof (Forall2_length HFb) as Hlenb.
+  destruct k as [|[|[|[|[|[|[|j]]]]]]]; cbn [dup_nth].
+  - apply oc_fail. simpl app. unfold m2fails. rewrite run_lm. now apply hdr_bad.
+  - apply oc_fail. simpl app. unfold m2fails. rewrite run_lm. now apply hdr_bad.
+  - destruct (m2header_sim _ _ _ _ (strip name) (strip mtype) Hh) as [h' [Hh' Hs]]. now apply (dup_hdr_case post name counts counts mtype ctype status h').
+  - destruct (m2header_sim _ _ _ _ (strip name) (strip mtype) Hh) as [h' [Hh' Hs]]. now apply (dup_hdr_case post name counts mtype mtype ctype status h').
+  - apply (dup_hdr_case post name counts mtype ctype ctype status h); auto using hsim_refl.
+  - apply (dup_hdr_case post name counts mtype ctype status status h); auto using hsim_refl.
+  - (* ATOM record twice *)
+    unfold body. cbn [dup_nth].
+    destruct (Z.leb_spec (mh_natoms h) 0) as [Hle|Hgt].
+    + apply (oc_same _ _ _ _ _ _ _ h (hsim_refl h)). rewrite run_lm, run_hdr5. unfold SB.
+      rewrite m2run_cons, (step_atom_sec h _ _ la Hla). destruct (Z.leb_spec (mh_natoms h) 0); [|lia].
+      rewrite <- (app_nil_r (la :: als ++ lb :: bls)). rewrite (run_body h atoms bonds out' la lb als bls Hna Hnb Hla HFa Hlb HFb). reflexivity.
+    + apply oc_fail. simpl app. unfold m2fails. rewrite run_lm, run_hdr5. unfold SB.
+      apply m2fails_step. rewrite (step_atom_sec h _ _ la Hla). destruct (Z.leb_spec (mh_natoms h) 0); [lia|].
+      apply m2fails_step. rewrite step_atom_few by exact Hla_few. apply m2fails_fail.
+  - unfold body. cbn [dup_nth].
+    assert (Hpre : forall rest, m2run true S0 (lm :: name :: counts :: mtype :: ctype :: status :: la :: rest)
+                   = m2run true (if (mh_natoms h <=? 0)%Z then SB else MRun (MAtoms (Z.to_N (mh_natoms h))) (V (Some h) (Some []) (Some []) out')) rest).
+    { intros rest. rewrite run_lm, run_hdr5. unfold SB. rewrite m2run_cons, (step_atom_sec h _ _ la Hla).
+      destruct (mh_natoms h <=? 0)%Z; reflexivity. }
+    assert (Hatoms : forall rest, m2run true S0 (lm :: name :: counts :: mtype :: ctype :: status :: la :: als ++ rest)
+                     = m2run true (MRun MMain (V (Some h) (Some (rev atoms)) (Some []) out')) rest).
+    { intros rest. rewrite run_lm, run_hdr5. unfold SB. apply (run_atoms_sec h atoms out' la als Hna Hla HFa). }
+    destruct (lt_dec j (List.length als)) as [Hja|Hja].
+    + (* an atom line twice: one line too many *)
+      apply oc_fail. rewrite dup_nth_app_l by exact Hja. unfold m2fails.
+      change ((lm :: name :: counts :: mtype :: ctype :: status :: la :: dup_nth j als ++ lb :: bls) ++ post)
+        with (lm :: name :: counts :: mtype :: ctype :: status :: la :: (dup_nth j als ++ lb :: bls) ++ post).
+      rewrite Hpre. destruct (Z.leb_spec (mh_natoms h) 0) as [Hle|Hgt]; [lia|].
+      rewrite <- app_assoc. pose proof (dup_nth_length als j Hja) as Hdl.
+      replace (Z.to_N (mh_natoms h)) with (N.of_nat (List.length (dup_nth j als) - 1)) by lia.
+      apply (over_atoms _ _ _ _ (dup_nth j atoms)); [now apply Forall2_dup_nth|now apply dup_nth_Forall|lia].
+    + remember (j - List.length als)%nat as j1 eqn:Ej1. replace j with (List.length als + j1)%nat by lia.
+      rewrite dup_nth_app_r. destruct j1 as [|j2]; cbn [dup_nth].
+      * (* BOND record twice *)
+        destruct (Z.leb_spec (Z.of_nat (List.length bonds)) 0) as [Hle|Hgt].
+        -- apply (oc_same _ _ _ _ _ _ _ h (hsim_refl h)). rewrite Hatoms.
+           rewrite m2run_cons, (step_bond_sec h _ _ lb _ Hlb Hnb). destruct (Z.leb_spec (Z.of_nat (List.length bonds)) 0); [|lia].
+           rewrite <- (app_nil_r bls). rewrite (run_bonds_sec h bonds out' lb bls Hnb Hlb HFb). reflexivity.
+        -- apply oc_fail. unfold m2fails.
+           change ((lm :: name :: counts :: mtype :: ctype :: status :: la :: als ++ lb :: lb :: bls) ++ post)
+             with (lm :: name :: counts :: mtype :: ctype :: status :: la :: (als ++ lb :: lb :: bls) ++ post).
+           rewrite <- app_assoc, Hatoms. simpl app. apply m2fails_step. rewrite (step_bond_sec h _ _ lb _ Hlb Hnb).
+           destruct (Z.leb_spec (Z.of_nat (List.length bonds)) 0); [lia|].
+           apply m2fails_step. rewrite step_bond_few by exact Hlb_few. apply m2fails_fail.
+      * (* a bond line twice *)
+        assert (Hj2 : (j2 < List.length bls)%nat) by lia.
+        apply oc_fail. unfold m2fails.
+        change ((lm :: name :: counts :: mtype :: ctype :: status :: la :: als ++ lb :: dup_nth j2 bls) ++ post)
+          with (lm :: name :: counts :: mtype :: ctype :: status :: la :: (als ++ lb :: dup_nth j2 bls) ++ post).
+        rewrite <- app_assoc, Hatoms. simpl app. apply m2fails_step. rewrite (step_bond_sec h _ _ lb _ Hlb Hnb).
+        destruct (Z.leb_spec (Z.of_nat (List.length bonds)) 0); [lia|].
+        pose proof (dup_nth_length bls j2 Hj2) as Hdl.
+        replace (Z.to_N (Z.of_nat (List.length bonds))) with (N.of_nat (List.length (dup_nth j2 bls) - 1)) by lia.
+        apply (over_bonds _ _ _ _ (dup_nth j2 bonds)); [now apply Forall2_dup_nth|now apply dup_nth_Forall|lia].
+Qed.
+End BlockDamage.
+
+(* ---- assembling: texts *)
+Inductive m2wfs_text : list m2block -> list str -> Prop :=
+| m2ws_nil : m2wfs_text [] []
+| m2ws_cons b bs l ls : m2wfs b l -> m2wfs_text bs ls -> m2wfs_text (b :: bs) (l ++ ls).
+Lemma m2wfs_text_wf bs ls : m2wfs_text bs ls -> m2wf_text bs ls.
+Proof. induction 1; constructor; auto using m2wfs_wf. Qed.
+
+Lemma m2wfs_text_tail bs ls : m2wfs_text bs ls -> wtail ls.
+Proof.
+  intros H. destruct H as [|b bs l ls Hb Ht]; [constructor|].
+  destruct Hb as [ign lm name counts mtype ctype status la als lb bls h atoms bonds Hign ? ? ? ? ? ? ? ? ? Hnb Hfew].
+  destruct ign as [|x ign]; simpl.
+  - now apply wt_lm.
+  - inversion Hign; subst. inversion Hnb; subst. now apply wt_ign.
+Qed.
+
+Lemma is_sec_not_ignorable l s : is_sec l s -> ~ ignorable l.
+Proof. intros (nm & r & E & _) [H|[r' H]]; rewrite E in H; discriminate. Qed.
+
+Lemma m2wf_text_drop_ign bs x post : m2wf_text bs (x :: post) -> ignorable x -> m2wf_text bs post.
+Proof.
+  intros H Hx. remember (x :: post) as ls0 eqn:E0. destruct H as [|b bs' l ls Hb Ht]; [discriminate|].
+  destruct Hb as [ign lm name counts mtype ctype status la als lb bls h atoms bonds Hign Hlm].
+  destruct ign as [|y ign].
+  - simpl in E0. injection E0 as Ex Epost. subst lm. exfalso. exact (is_sec_not_ignorable _ _ Hlm Hx).
+  - simpl in E0. injection E0 as Ex Epost. subst y post. inversion Hign; subst. constructor; [|exact Ht]. now constructor.
+Qed.
+
+Lemma m2wfs_text_locate bs ls i : m2wfs_text bs ls -> (i < List.length ls)%nat ->
+  exists bs1 b bs2 pre l post i', ls = pre ++ l ++ post /\ bs = bs1 ++ b :: bs2 /\
+    m2wfs_text bs1 pre /\ m2wfs b l /\ m2wfs_text bs2 post /\ i = (List.length pre + i')%nat /\ (i' < List.length l)%nat.
+Proof.
+  intros H. revert i. induction H as [|b bs l ls Hb Ht IH]; intros i Hi; [simpl in Hi; lia|].
+  rewrite app_length in Hi. destruct (lt_dec i (List.length l)) as [Hlt|Hge].
+  - exists [], b, bs, [], l, ls, i. repeat split; auto. constructor.
+  - destruct (IH (i - List.length l)%nat) as (bs1 & b' & bs2 & pre & l' & post & i' & E1 & E2 & H1 & H2 & H3 & E3 & H4); [lia|].
+    exists (b :: bs1), b', bs2, (l ++ pre), l', post, i'. repeat split; auto.
+    + rewrite E1. now rewrite app_assoc.
+    + rewrite E2. reflexivity.
+    + now constructor.
+    + rewrite app_length. lia.
+Qed.
+
+Lemma pre_state bs1 pre : m2wf_text bs1 pre -> exists out p, pok p /\
+  m2run true m2init pre = MRun MMain (pvars out p) /\ pout out p = rev bs1.
+Proof.
+  intros H. pose proof (run_text bs1 pre H [] None I) as R. unfold m2init.
+  change (mk_m2vars None None None false []) with (pvars [] None).
+  destruct (rev bs1) as [|b rbs] eqn:Er.
+  - exists [], None. repeat split; auto.
+  - destruct R as [R Hp]. exists (rbs ++ pout [] None), (pend_of b). split; [exact Hp|]. split; [exact R|].
+    rewrite pout_pend_of. simpl. now rewrite app_nil_r.
+Qed.
+
+Lemma finish_text bs2 post out h atoms bonds : m2wf_text bs2 post ->
+  Z.of_nat (List.length atoms) = mh_natoms h -> Z.of_nat (List.length bonds) = nb_of h ->
+  m2finish true (m2run true (MRun MMain (pvars out (Some (h, atoms, bonds)))) post)
+  = Ok (rev (mk_m2block h atoms bonds :: out) ++ bs2).
+Proof.
+  intros H H1 H2. assert (Hp : pok (Some (h, atoms, bonds))) by (split; assumption).
+  pose proof (run_text bs2 post H out (Some (h, atoms, bonds)) Hp) as R.
+  destruct (rev bs2) as [|b rbs] eqn:Er.
+  - rewrite R. change (Some (h, atoms, bonds)) with (pend_of (mk_m2block h atoms bonds)).
+    rewrite finish_some by exact Hp. apply (f_equal (@rev m2block)) in Er. rewrite rev_involutive in Er. subst bs2.
+    now rewrite app_nil_r.
+  - destruct R as [R Hpb]. rewrite R, finish_some by exact Hpb. cbn [pout].
+    apply (f_equal (@rev m2block)) in Er. rewrite rev_involutive in Er. subst bs2.
+    simpl. rewrite !rev_app_distr. simpl. rewrite <- !app_assoc. reflexivity.
+Qed.
+
+Definition bsim (b' b : m2block) : Prop := hsim (mk_hdr b') (mk_hdr b) /\ mk_atoms b' = mk_atoms b /\ mk_bonds b' = mk_bonds b.
+Definition bogus_block (b : m2block) : Prop := exists bd, In bd (mk_bonds b) /\ bad_bond bd.
+Lemma bsim_refl b : bsim b b.
+Proof. repeat split. Qed.
+Lemma Forall2_bsim_refl bs : Forall2 bsim bs bs.
+Proof. induction bs; constructor; auto using bsim_refl. Qed.
+
+Definition damaged_result (r : res (list m2block)) (bs : list m2block) : Prop :=
+  (exists e, r = Err e) \/ (exists bs', r = Ok bs' /\ Forall2 bsim bs' bs) \/ (exists bs', r = Ok bs' /\ Exists bogus_block bs').
+
+Lemma outcome_result bs1 pre b l bs2 post dl out p :
+  m2wf_text bs1 pre -> pok p -> m2run true m2init pre = MRun MMain (pvars out p) -> pout out p = rev bs1 ->
+  m2wfs b l -> m2wf_text bs2 post ->
+  outcome (pout out p) (mk_hdr b) (mk_atoms b) (mk_bonds b) (MRun MMain (pvars out p)) dl post ->
+  damaged_result (read_mol2 true (pre ++ dl ++ post)) (bs1 ++ b :: bs2).
+Proof.
+  intros Hpre Hp Rpre Eout Hb Hpost O. unfold read_mol2. rewrite <- m2run_app, Rpre.
+  assert (Hc : Z.of_nat (List.length (mk_atoms b)) = mh_natoms (mk_hdr b) /\ Z.of_nat (List.length (mk_bonds b)) = nb_of (mk_hdr b)).
+  { destruct Hb. cbn [mk_hdr mk_atoms mk_bonds]. split; [congruence|]. unfold nb_of. now rewrite H7. }
+  destruct Hc as [Hc1 Hc2].
+  destruct O as [F|h' Hs E|x post' bonds' bd E1 E2 E3 E4 E5 E6].
+  - left. exact F.
+  - right. left. rewrite <- m2run_app, E. destruct Hs as [Hs1 Hs2].
+    assert (X1 : Z.of_nat (List.length (mk_atoms b)) = mh_natoms h') by (now rewrite Hs1).
+    assert (X2 : Z.of_nat (List.length (mk_bonds b)) = nb_of h') by (unfold nb_of in *; now rewrite Hs2).
+    rewrite (finish_text bs2 post _ _ _ _ Hpost X1 X2).
+    eexists. split; [reflexivity|]. rewrite Eout. simpl. rewrite rev_involutive, <- app_assoc. simpl.
+    apply Forall2_app; [apply Forall2_bsim_refl|]. constructor; [|apply Forall2_bsim_refl].
+    destruct b. repeat split; assumption.
+  - right. right. subst post. replace (dl ++ x :: post') with ((dl ++ [x]) ++ post') by (now rewrite <- app_assoc).
+    rewrite <- m2run_app, E6.
+    assert (X0 : m2wf_text bs2 post') by (eapply m2wf_text_drop_ign; eauto).
+    assert (X2 : Z.of_nat (List.length bonds') = nb_of (mk_hdr b)) by (now rewrite E3).
+    rewrite (finish_text bs2 post' _ _ _ _ X0 Hc1 X2).
+    eexists. split; [reflexivity|]. rewrite Eout. simpl. rewrite rev_involutive, <- app_assoc. simpl.
+    apply Exists_app. right. apply Exists_cons_hd. exists bd. split; assumption.
+Qed.
+
+Lemma block_deleted b l out p post i : m2wfs b l -> pok p -> wtail post -> (i < List.length l)%nat ->
+  outcome (pout out p) (mk_hdr b) (mk_atoms b) (mk_bonds b) (MRun MMain (pvars out p)) (del_nth i l) post.
+Proof.
+  intros H Hp Ht Hi.
+  destruct H as [ign lm name counts mtype ctype status la als lb bls h atoms bonds Hign Hlm Hh Hst Hla Hna HFa Hlb Hnb HFb
+                 Hign_nb Hlm_few Hname_t Hname_bad Hcounts_o Hmtype_bad Hctype_p Hla_few Hlb_few Hals_o Hbls_o].
+  cbn [mk_hdr mk_atoms mk_bonds]. destruct (lt_dec i (List.length ign)) as [Hlt|Hge].
+  - rewrite del_nth_app_l by exact Hlt. apply (oc_same _ _ _ _ _ _ _ h (hsim_refl h)).
+    assert (W : m2wf (mk_m2block h atoms bonds) (del_nth i ign ++ lm :: name :: counts :: mtype :: ctype :: status :: la :: als ++ lb :: bls))
+      by (constructor; auto using del_nth_Forall).
+    destruct (run_block _ _ out p W Hp) as [E _]. exact E.
+  - replace i with (List.length ign + (i - List.length ign))%nat by lia. rewrite del_nth_app_r.
+    apply outcome_ign; [exact Hign|].
+    rewrite app_length in Hi. simpl in Hi. rewrite app_length in Hi. simpl in Hi.
+    apply deleted_inner; auto. lia.
+Qed.
+Lemma block_duplicated b l out p post i : m2wfs b l -> pok p -> (i < List.length l)%nat ->
+  outcome (pout out p) (mk_hdr b) (mk_atoms b) (mk_bonds b) (MRun MMain (pvars out p)) (dup_nth i l) post.
+Proof.
+  intros H Hp Hi.
+  destruct H as [ign lm name counts mtype ctype status la als lb bls h atoms bonds Hign Hlm Hh Hst Hla Hna HFa Hlb Hnb HFb
+                 Hign_nb Hlm_few Hname_t Hname_bad Hcounts_o Hmtype_bad Hctype_p Hla_few Hlb_few Hals_o Hbls_o].
+  cbn [mk_hdr mk_atoms mk_bonds]. destruct (lt_dec i (List.length ign)) as [Hlt|Hge].
+  - rewrite dup_nth_app_l by exact Hlt. apply (oc_same _ _ _ _ _ _ _ h (hsim_refl h)).
+    assert (W : m2wf (mk_m2block h atoms bonds) (dup_nth i ign ++ lm :: name :: counts :: mtype :: ctype :: status :: la :: als ++ lb :: bls))
+      by (constructor; auto using dup_nth_Forall).
+    destruct (run_block _ _ out p W Hp) as [E _]. exact E.
+  - replace i with (List.length ign + (i - List.length ign))%nat by lia. rewrite dup_nth_app_r.
+    apply outcome_ign; [exact Hign|].
+    rewrite app_length in Hi. simpl in Hi. rewrite app_length in Hi. simpl in Hi.
+    apply duplicated_inner; auto. lia.
+Qed.
+
+Theorem read_mol2_deleted bs ls i : m2wfs_text bs ls -> (i < List.length ls)%nat ->
+  damaged_result (read_mol2 true (del_nth i ls)) bs.
+Proof.
+  intros H Hi. destruct (m2wfs_text_locate bs ls i H Hi) as (bs1 & b & bs2 & pre & l & post & i' & E1 & E2 & H1 & H2 & H3 & E3 & H4).
+  subst ls bs i. rewrite del_nth_app_r, del_nth_app_l by exact H4.
+  destruct (pre_state bs1 pre (m2wfs_text_wf _ _ H1)) as (out & p & Hp & R & Eo).
+  eapply outcome_result; eauto using m2wfs_text_wf.
+  apply block_deleted; auto. eapply m2wfs_text_tail; eauto.
+Qed.
+Theorem read_mol2_duplicated bs ls i : m2wfs_text bs ls -> (i < List.length ls)%nat ->
+  damaged_result (read_mol2 true (dup_nth i ls)) bs.
+Proof.
+  intros H Hi. destruct (m2wfs_text_locate bs ls i H Hi) as (bs1 & b & bs2 & pre & l & post & i' & E1 & E2 & H1 & H2 & H3 & E3 & H4).
+  subst ls bs i. rewrite dup_nth_app_r, dup_nth_app_l by exact H4.
+  destruct (pre_state bs1 pre (m2wfs_text_wf _ _ H1)) as (out & p & Hp & R & Eo).
+  eapply outcome_result; eauto using m2wfs_text_wf.
+  apply block_duplicated; auto.
+Qed.
+
+(* ---- molecules *)
+Lemma atom_conv_nc atype nc nc' a x : m2_atom_conv atype nc a = Ok x ->
+  m2_atom_conv atype nc' a = Ok x \/ exists e, m2_atom_conv atype nc' a = Err e.
+Proof.
+  unfold m2_atom_conv. destruct (nth_tok 2 (ma_toks a)); [|discriminate]. destruct (nth_tok 3 (ma_toks a)); [|discriminate].
+  destruct (nth_tok 4 (ma_toks a)); [|discriminate].
+  destruct (parse_float s); [|discriminate]. destruct (parse_float s0); [|discriminate]. destruct (parse_float s1); [|discriminate].
+  destruct (nth_tok 5 (ma_toks a)); [|discriminate]. destruct (atype s2); [|discriminate].
+  destruct (match ma_attr_charge a with Some c => parse_int c | None => Some 0%Z end); [|discriminate].
+  destruct nc, nc'; intros H; auto.
+  - destruct (nth_tok 8 (ma_toks a)); [|discriminate]. destruct (parse_float s3); [|discriminate]. now left.
+  - destruct (nth_tok 8 (ma_toks a)); [|right; eexists; reflexivity]. destruct (parse_float s3); [now left|right; eexists; reflexivity].
+Qed.
+Lemma all_ok_atoms_nc atype nc nc' l : forall xs, all_ok (map (m2_atom_conv atype nc) l) = Ok xs ->
+  all_ok (map (m2_atom_conv atype nc') l) = Ok xs \/ exists e, all_ok (map (m2_atom_conv atype nc') l) = Err e.
+Proof.
+  induction l as [|a l IH]; intros xs H; [now left|]. simpl in *.
+  destruct (m2_atom_conv atype nc a) as [x|] eqn:Ea; [|discriminate].
+  destruct (all_ok (map (m2_atom_conv atype nc) l)) as [xs'|] eqn:El; [|discriminate]. injection H as <-.
+  destruct (atom_conv_nc atype nc nc' a x Ea) as [E|[e E]]; rewrite E; [|right; now exists e].
+  destruct (IH xs' eq_refl) as [E2|[e E2]]; rewrite E2; [now left|right; now exists e].
+Qed.
+
+Lemma build_sim atype btype b' b m : bsim b' b -> mol2_build atype btype b = Ok m ->
+  (exists e, mol2_build atype btype b' = Err e) \/ mol2_build atype btype b' = Ok m.
+Proof.
+  destruct b' as [h' a' bd'], b as [h a bd]. intros [[Hn Hb] [Ea Eb]]. simpl in *. subst a' bd'.
+  unfold mol2_build, res_bind. cbn [mk_hdr mk_atoms mk_bonds]. rewrite Hn.
+  destruct (mh_natoms h <? 0)%Z; [discriminate|]. destruct (mh_natoms h <? Z.of_nat (List.length a))%Z; [discriminate|].
+  set (nc := negb (str_eqb (mh_chrg h) no_charges)). set (nc' := negb (str_eqb (mh_chrg h') no_charges)).
+  destruct (all_ok (map (m2_atom_conv atype nc) a)) as [ats|] eqn:E1; [|discriminate].
+  destruct (all_ok_atoms_nc atype nc nc' a ats E1) as [E1'|[e E1']]; rewrite E1'; [|left; now exists e].
+  destruct (all_ok (map (m2_bond_conv btype (Z.to_nat (mh_natoms h))) bd)) as [bds|] eqn:E2; [|discriminate].
+  destruct (nc && negb (len_is a (mh_natoms h))); [discriminate|]. intros H. injection H as <-.
+  destruct (nc' && negb (len_is a (mh_natoms h))); [left; eexists; reflexivity|]. right.
+  unfold nb_of. now rewrite Hb.
+Qed.
+
+Lemma all_ok_err_in {A B} (f : A -> res B) l : Exists (fun x => exists e, f x = Err e) l -> exists e, all_ok (map f l) = Err e.
+Proof.
+  induction 1 as [x l [e E]|x l H [e IH]]; simpl.
+  - rewrite E. now exists e.
+  - destruct (f x); [|eexists; reflexivity]. rewrite IH. now exists e.
+Qed.
+Lemma build_bogus atype btype b : bogus_block b -> exists e, mol2_build atype btype b = Err e.
+Proof.
+  intros (bd & Hin & Hbad). unfold mol2_build, res_bind.
+  destruct (mh_natoms (mk_hdr b) <? 0)%Z; [eexists; reflexivity|].
+  destruct (mh_natoms (mk_hdr b) <? Z.of_nat (List.length (mk_atoms b)))%Z; [eexists; reflexivity|].
+  destruct (all_ok (map _ (mk_atoms b))); [|eexists; reflexivity].
+  destruct (all_ok_err_in (m2_bond_conv btype (Z.to_nat (mh_natoms (mk_hdr b)))) (mk_bonds b)) as [e E].
+  - apply Exists_exists. exists bd. split; [exact Hin|apply Hbad].
+  - rewrite E. now exists e.
+Qed.
+
+Lemma all_ok_sim {A B} (f : A -> res B) (R : A -> A -> Prop) :
+  (forall x' x m, R x' x -> f x = Ok m -> (exists e, f x' = Err e) \/ f x' = Ok m) ->
+  forall l' l, Forall2 R l' l -> forall ms, all_ok (map f l) = Ok ms ->
+  (exists e, all_ok (map f l') = Err e) \/ all_ok (map f l') = Ok ms.
+Proof.
+  intros HR l' l HF. induction HF as [|x' x l' l Hx HF IH]; intros ms H; [now right|]. simpl in *.
+  destruct (f x) as [m|] eqn:Ex; [|discriminate]. destruct (all_ok (map f l)) as [ms'|] eqn:El; [|discriminate]. injection H as <-.
+  destruct (HR x' x m Hx Ex) as [[e E]|E]; rewrite E; [left; now exists e|].
+  destruct (IH ms' eq_refl) as [[e E2]|E2]; rewrite E2; [left; now exists e|now right].
+Qed.
+
+Lemma damaged_load atype btype r bs ms : damaged_result r bs -> all_ok (map (mol2_build atype btype) bs) = Ok ms ->
+  (exists e, res_bind r (fun bs => all_ok (map (mol2_build atype btype) bs)) = Err e) \/
+  res_bind r (fun bs => all_ok (map (mol2_build atype btype) bs)) = Ok ms.
+Proof.
+  intros [[e ->]|[(bs' & -> & HF)|(bs' & -> & HE)]] Hms; simpl.
+  - left. now exists e.
+  - eapply all_ok_sim; eauto. intros x' x m. apply build_sim.
+  - left. apply all_ok_err_in. eapply Exists_impl; [|exact HE]. intros b Hb. now apply build_bogus.
+Qed.
+
+Theorem load_mol2_deleted atype btype bs ls ms i : m2wfs_text bs ls -> load_mol2_lines true atype btype ls = Ok ms ->
+  (i < List.length ls)%nat ->
+  (exists e, load_mol2_lines true atype btype (del_nth i ls) = Err e) \/ load_mol2_lines true atype btype (del_nth i ls) = Ok ms.
+Proof.
+  intros H Hfull Hi. unfold load_mol2_lines in *. destruct bs as [|b0 bs0].
+  - inversion H; subst. simpl in Hi. lia.
+  - rewrite (read_mol2_wf _ ls (m2wfs_text_wf _ _ H)) in Hfull by discriminate. simpl in Hfull.
+    apply damaged_load with (bs := b0 :: bs0); [now apply read_mol2_deleted|exact Hfull].
+Qed.
+Theorem load_mol2_duplicated atype btype bs ls ms i : m2wfs_text bs ls -> load_mol2_lines true atype btype ls = Ok ms ->
+  (i < List.length ls)%nat ->
+  (exists e, load_mol2_lines true atype btype (dup_nth i ls) = Err e) \/ load_mol2_lines true atype btype (dup_nth i ls) = Ok ms.
+Proof.
+  intros H Hfull Hi. unfold load_mol2_lines in *. destruct bs as [|b0 bs0].
+  - inversion H; subst. simpl in Hi. lia.
+  - rewrite (read_mol2_wf _ ls (m2wfs_text_wf _ _ H)) in Hfull by discriminate. simpl in Hfull.
+    apply damaged_load with (bs := b0 :: bs0); [now apply read_mol2_duplicated|exact Hfull].
+Qed.
